@@ -54,6 +54,8 @@ def h_junit(sx):
         extra = {"stdout_capture": True, "stderr_capture": True, "log_capture": True}
         if p.get("hooks"):
             extra.update({"hooks": True, "fault": True})
+            if where == "hook-message":
+                extra["fault_message"] = u" " + hostile
         w, flags = build_world(sx, extra)
         sx.params = p
         if where in ("message", "stdout"):
@@ -267,7 +269,7 @@ def jobs(tier, seed):
         shapes.update({"2feat-select": ([F([S(1), S(1)]), F([S(2)])], {"out_dom": D, "select": True}, False),
                        "bg": ([F([S(2), R([S(1)], bg=1)], bg=1)], {"out_dom": {"*": [0, 5]}}, False)})
     for name, (sh, opts, hooks) in shapes.items():
-        sub = {} if name == "2sc" else {"hostile_idx": [0, 3, 9], "wheres": ["scenario-name", "message"]}
+        sub = {} if name == "2sc" else {"hostile_idx": [0, 3, 9], "wheres": ["scenario-name", "message"] + (["hook-message"] if hooks else [])}
         js.append(Job("junit.%s" % name, "props.c16:h_junit", dict({"shapes": sh, "opts": opts, "hooks": hooks}, **sub),
                       reach=REACH, min_paths=20, cost=100, validate=40, closure=False))
     return js
